@@ -4159,6 +4159,13 @@ func (e *ExpressionEmitter) getExpressionStorageClass(handle ir.ExpressionHandle
 		if arg.Binding != nil {
 			return StorageClassInput, nil
 		}
+		// A pointer parameter carries its address space in its type:
+		// ptr<private, T>, ptr<workgroup, T>, ptr<storage, T> are not Function-class.
+		if int(arg.Type) < len(e.backend.module.Types) {
+			if pt, ok := e.backend.module.Types[arg.Type].Inner.(ir.PointerType); ok {
+				return addressSpaceToStorageClass(pt.Space)
+			}
+		}
 		return StorageClassFunction, nil
 	case ir.ExprAccess:
 		return e.getExpressionStorageClass(k.Base)
